@@ -27,7 +27,7 @@ import (
 
 func TestMain(m *testing.M) {
 	harness.Describe(
-		"functions = every Go registration in interp.DefaultRegistry.EnvFuncFns with every arity in its range (including `_`-prefixed ones) + every public name/arity in fq's `scope` that the reference gojq engine does not define; cases = function x input x argument tuple over a pool of ~60 boundary values per jq type (null, booleans, 0, -1, 255, 256, 2^31, 2^53+1, 2^63-1, 2^63, 2^64, -2^63, 2^200, 0.5, -0.0, 1e308, nan, infinite, empty/8KiB/NUL strings, invalid-UTF-8 and unaligned binaries, empty and nested arrays/objects, decode values, an open file, option objects with missing/mistyped/negative/huge members). Arity 0: every input. Arity 1: every input x every argument in the thorough tier, a seed-derived sample of pairs per function in the quick tier. Arity >= 2: seed-derived tuples. Evaluated as `INPUT | try [limit(50; F(ARGS))] catch .` in batches inside crash-isolated workers with a virtual OS (empty stdin, readline -> EOF). Non-trivial: the call produced a value or an error other than the generic argument/type error; distinct = (function/arity, input index, argument indexes).",
+		"functions = every Go registration in interp.DefaultRegistry.EnvFuncFns with every arity in its range (including `_`-prefixed ones) + every public name/arity in fq's `scope` that the reference gojq engine does not define; cases = function x input x argument tuple over a pool of ~60 boundary values per jq type (null, booleans, 0, -1, 255, 256, 2^31, 2^53+1, 2^63-1, 2^63, 2^64, -2^63, 2^200, 0.5, -0.0, 1e308, nan, infinite, empty/8KiB/NUL strings, invalid-UTF-8 and unaligned binaries, empty and nested arrays/objects, decode values, an open file, option objects with missing/mistyped/negative/huge members). Arity 0: every input. Arity 1: every input x every argument in the thorough tier, a seed-derived sample of pairs per function in the quick tier. Arity >= 2: seed-derived tuples. Evaluated as `INPUT | try [limit(50; F(ARGS))] catch .` in batches inside crash-isolated workers with a virtual OS (empty stdin, readline -> EOF). Non-trivial: the call produced a value or an error other than the generic argument/type error; distinct = (function/arity, input index, argument indexes). Further families: 4000 generated option objects x 29 option-taking functions x 7 inputs; query values (ASTs of 42 programs) with every node removed or replaced, handed to _query_tostring; malformed interpreter states set before _eval.",
 		"a batch that exceeds its 20 s context deadline is re-run case by case with 5 s deadlines; a case that still exceeds it is counted as timeout_inconclusive (jq-level non-termination is not a runtime fault)",
 		"an out-of-memory death is re-run alone under a 48 GiB limit and counts only if the process dies again (huge-but-honourable option values are honoured or rejected without the harness limit deciding)",
 		"signatures are 'fault class:fq function of the fault' (one root cause reachable through many functions is one finding)",
